@@ -9,6 +9,39 @@ def tweak(rng, c):
     c["session_opts"]["fail_types"] = children if rng.random() < 0.8 else None
 
 
+def directed_cases():
+    """two memberships of one group and the group itself are removed in one poll; the removal of
+    one membership keeps failing, the other one recovers after one retry: the group must stay
+    until the first membership is gone (the parent index must remember every dependant)"""
+    import copy
+    import random
+    import clicase
+    import srvcase
+    rng = random.Random(5)
+    base = None
+    while base is None or [t["name"] for t in base["cfg"]["types"]] != ["Ta", "Tb", "Tc"] or len(base["cdm"]) != 3:
+        base = clicase.gen_case(rng, {"shape": "assoc", "retention": 0, "p_unmapped_type": 0.0})
+    ta, tb, tc = base["cfg"]["types"]
+    row = lambda t, **k: dict({a: 1 for a in t["attrs"] if a not in t["pkey"]}, **k)
+    p1 = {"Ta": {1: row(ta, id=1), 2: row(ta, id=2)}, "Tb": {1: row(tb, id=1), 2: row(tb, id=2)},
+          "Tc": {(1, 1): row(tc, aid=1, bid=1), (1, 2): row(tc, aid=1, bid=2), (2, 1): row(tc, aid=2, bid=1)}}
+    p2 = {"Ta": {2: row(ta, id=2)}, "Tb": {1: row(tb, id=1), 2: row(tb, id=2)}, "Tc": {(2, 1): row(tc, aid=2, bid=1)}}
+    out = []
+    for pol in ("on_remove_event", "on_every_event"):
+        for longkey, shortkey in (((1, 1), (1, 2)), ((1, 2), (1, 1))):
+            c = copy.deepcopy(base)
+            c["polls"] = [srvcase.to_remote_tables(c["cfg"], p1), srvcase.to_remote_tables(c["cfg"], p2)]
+            c["fkpolicy"], c["retention"], c["remediation"] = pol, 0, "disabled"
+            its = [{"limit": 9, "now": 10, "restart": False, "faults": True}]
+            its += [{"limit": 12, "now": 20 + 10 * j, "restart": False, "faults": True} for j in range(4)]
+            its += [{"limit": 12, "now": 100 + 10 * j, "restart": False, "faults": False} for j in range(4)]
+            c["sessions"] = {"iters": its, "outcomes": ["ok"] * 60,
+                             "fail_rule": {f"on_LTc_removed|{longkey!r}": 4, f"on_LTc_removed|{shortkey!r}": 1}}
+            c["sseed"], c["session_opts"] = 0, {}
+            out.append(c)
+    return out
+
+
 def run(ctx):
     n = ctx.n(240, 6000)
 
@@ -16,7 +49,8 @@ def run(ctx):
         return {"retention": rng.choice([0, 0, 1]), "remediation": "disabled",
                 "shape": rng.choice(["chain", "chain2", "assoc", "assoc"]),
                 "fkpolicy": rng.choice(["on_remove_event", "on_every_event", "on_remove_event", "disabled"])}
-    cases = cliprops.gen_cases(ctx, n, copts, {"p_fail": 0.55, "p_partial": 0.1, "clock": False}, tweak=tweak)
+    directed = directed_cases()
+    cases = directed + cliprops.gen_cases(ctx, n, copts, {"p_fail": 0.55, "p_partial": 0.1, "clock": False}, tweak=tweak)
     res, failing = cliprops.run_and_eval(ctx, cases, "c09_case", "c09")
     violations, corr = [], []
     control_breaks = 0
